@@ -3,6 +3,7 @@ package main
 import (
 	"bytes"
 	"fmt"
+	"github.com/ulikunitz/xz/lzma"
 	"math/rand"
 	"sync"
 	"time"
@@ -24,6 +25,30 @@ func checkC05(a *checkArgs, r *Result) error {
 		nlib, maxLen, full = 200, 6000, 8000
 	}
 	bases := append(libraryStreams(rng, nlib, maxLen), corpusStreams(full*4)...)
+	// content larger than the reader's dictionary (the decoder refills its ring several times): classic LZMA and
+	// LZMA2 written and read with a 4096-byte dictionary
+	type sized struct {
+		b   baseStream
+		cap int
+	}
+	var bigs []sized
+	for i := 0; i < 3; i++ {
+		data := genText(rng, 14000+rng.Intn(8000))
+		var buf bytes.Buffer
+		if w, err := (lzma.WriterConfig{DictCap: 4096, SizeInHeader: i%2 == 0, Size: int64(len(data)), EOSMarker: i > 0}).NewWriter(&buf); err == nil {
+			w.Write(data)
+			if w.Close() == nil {
+				bigs = append(bigs, sized{baseStream{"lzma", fmt.Sprintf("beyond-dict/lzma/%d", len(data)), append([]byte{}, buf.Bytes()...), data, 0}, 4096})
+			}
+		}
+		buf.Reset()
+		if w, err := (lzma.Writer2Config{DictCap: 4096}).NewWriter2(&buf); err == nil {
+			w.Write(data)
+			if w.Close() == nil {
+				bigs = append(bigs, sized{baseStream{"lzma2", fmt.Sprintf("beyond-dict/lzma2/%d", len(data)), append([]byte{}, buf.Bytes()...), data, 0}, 4096})
+			}
+		}
+	}
 	// multi-stream: two streams with padding
 	var xzs []baseStream
 	for _, b := range bases {
@@ -36,6 +61,7 @@ func checkC05(a *checkArgs, r *Result) error {
 		cut int
 		// boundaries at which a cut is a legal end (multi-stream)
 		legal map[int]bool
+		cap   int // ReaderConfig.DictCap (0 = default)
 	}
 	var jobs []job
 	r.Exhaustive = true
@@ -50,7 +76,16 @@ func checkC05(a *checkArgs, r *Result) error {
 			if stride > 1 && k%stride != 0 && k > 64 && k < n-64 {
 				continue
 			}
-			jobs = append(jobs, job{b, k, nil})
+			jobs = append(jobs, job{b, k, nil, 0})
+		}
+	}
+	for _, sb := range bigs {
+		n := len(sb.b.Stream)
+		for k := 0; k < n; k++ {
+			if k%3 != 0 && k > 64 && k < n-64 {
+				continue
+			}
+			jobs = append(jobs, job{sb.b, k, nil, sb.cap})
 		}
 	}
 	for i := 0; i+1 < len(xzs) && i < 8; i += 2 {
@@ -69,7 +104,7 @@ func checkC05(a *checkArgs, r *Result) error {
 		b := baseStream{"xz", fmt.Sprintf("multi/%s+%d+%s+%d", xzs[i].Name, pad, xzs[i+1].Name, tail), s,
 			append(append([]byte{}, xzs[i].Content...), xzs[i+1].Content...), 0}
 		for k := 0; k < len(s); k++ {
-			jobs = append(jobs, job{b, k, legal})
+			jobs = append(jobs, job{b, k, legal, 0})
 		}
 	}
 	r.Extra["base_streams"] = len(bases)
@@ -82,7 +117,7 @@ func checkC05(a *checkArgs, r *Result) error {
 			defer wg.Done()
 			defer func() { <-sem }()
 			pre := j.b.Stream[:j.cut]
-			c := rdCase{Op: "read-prefix", Kind: j.b.Kind, Name: fmt.Sprintf("%s cut=%d/%d", j.b.Name, j.cut, len(j.b.Stream)), Stream: hxe(pre), Want: ""}
+			c := rdCase{Op: "read-prefix", Kind: j.b.Kind, Name: fmt.Sprintf("%s cut=%d/%d", j.b.Name, j.cut, len(j.b.Stream)), Stream: hxe(pre), Want: "", DictCap: j.cap}
 			g := goRead(c, pre, 30*time.Second)
 			r.Count(c.Name, j.cut > 13)
 			r.Inc("kind_" + j.b.Kind)
